@@ -306,7 +306,7 @@ def cases_assign(tier):
 
 
 STORED_TARGETS = {
-    # name: (model class, settings family of the document, table family)
+    # loader: settings family of the stored document
     "DailyModel": "DailySettings",
     "BillingModel": "DailyLegacySettings",
     "HourlyModel/solar": "HourlySolarSettings",
@@ -676,16 +676,17 @@ def run_assign(case):
     for k in path[:-1]:
         holder = getattr(holder, k)
     value = sr.dec(case["value"])
+    before = _dev_leaf_diffs(fam, _snapshot(obj))
     try:
         setattr(holder, path[-1], value)
         out = "no_exception"
     except Exception as e:  # noqa
         out = "raised:" + type(e).__name__
     dump = _snapshot(obj)
-    changed = _dev_leaf_diffs(fam, dump)
+    changed = [p for p in _dev_leaf_diffs(fam, dump) if p not in before]
     viol = []
     if changed and dump.get("developer_mode") is not True:
-        viol.append({"clause": "lock_bypassed_by_assignment", "key": {"target": target, "field": ".".join(path)},
+        viol.append({"clause": "lock_bypassed_by_assignment", "key": {"target": target, "block": path[0] if len(path) > 1 else "(top level)"},
                      "detail": f"{target}().{'.'.join(path)} = {value!r} succeeded ({out}); developer-only settings now differ "
                                f"from the approved constants at {changed} with developer_mode={dump.get('developer_mode')!r}"})
     bad = _defaults_intact(fam)
@@ -759,7 +760,7 @@ def run_stored(case):
         doc = _hourly_doc(recorded)
         loader = HourlyModel
     doc = json.loads(json.dumps(doc))  # what a stored document is: plain JSON
-    key = {"target": st_target, "field": "+".join(".".join(p) for p, _ in overrides) or "(defaults)", "flag": case["flag"]}
+    key = {"target": st_target, "flag": case["flag"]}
     ctx = f"{st_target} flag={case['flag']} overrides={case['overrides']}"
     viol = []
     buf = io.StringIO()
@@ -795,8 +796,6 @@ def run_stored(case):
         viol.append({"clause": "stored_settings_differ", "key": key,
                      "detail": f"to_dict()['settings'] differs from model.settings.model_dump() at "
                                f"{sr.diff_paths(_modulo_flag(rec, billing), _modulo_flag(built, billing))} | {ctx}"})
-    if billing and rec.get("developer_mode") is not True:
-        pass  # the forced flag is documented, not required by the statement
     if not sr.json_equal(json.loads(js)["settings"], rec):
         viol.append({"clause": "stored_settings_differ", "key": dict(key, via="to_json"),
                      "detail": f"to_json and to_dict disagree on the settings | {ctx}"})
